@@ -160,6 +160,19 @@ Error RACFGBuilder::on_instruction(InstNode* inst, InstControlFlow& cf, RAInstBu
       // than available.
       RegMask instruction_allowed_regs = 0xFFFFFFFFu;
 
+      // A variadic call in 64-bit mode has `xor eax, eax` / `mov eax, n` (System V) or moves to the GP argument registers
+      // (Windows) inserted right before the call by emit_pre_call(), so the call target must not live in those registers.
+      RegMask gp_forbidden_regs = 0u;
+      if (inst->is_invoke() && _is_64bit && inst->as<InvokeNode>()->detail().has_var_args()) {
+        const FuncDetail& fd = inst->as<InvokeNode>()->detail();
+        if (fd.call_conv().id() == CallConvId::kX64Windows) {
+          gp_forbidden_regs = fd.call_conv().passed_regs(RegGroup::kGp);
+        }
+        else {
+          gp_forbidden_regs = Support::bit_mask<RegMask>(Gp::kIdAx);
+        }
+      }
+
       uint32_t consecutive_offset = 0;
       RAWorkId consecutive_lead_id = kBadWorkId;
       RAWorkReg* consecutive_parent = nullptr;
@@ -257,6 +270,9 @@ Error RACFGBuilder::on_instruction(InstNode* inst, InstControlFlow& cf, RAInstBu
 
             RegGroup group = work_reg->group();
             RegMask use_regs = _pass._available_regs[group] & allowed_regs;
+            if (group == RegGroup::kGp) {
+              use_regs &= ~gp_forbidden_regs;
+            }
             RegMask out_regs = use_regs;
 
             uint32_t use_id = Reg::kIdBad;
@@ -358,7 +374,7 @@ Error RACFGBuilder::on_instruction(InstNode* inst, InstControlFlow& cf, RAInstBu
 
               RATiedFlags flags = ra_mem_base_rw_flags(op_rw_info.op_flags());
               RegGroup group = work_reg->group();
-              RegMask in_out_regs = _pass._available_regs[group];
+              RegMask in_out_regs = _pass._available_regs[group] & ~gp_forbidden_regs;
 
               uint32_t use_id = Reg::kIdBad;
               uint32_t out_id = Reg::kIdBad;
@@ -393,7 +409,7 @@ Error RACFGBuilder::on_instruction(InstNode* inst, InstControlFlow& cf, RAInstBu
 
               RATiedFlags flags = ra_mem_index_rw_flags(op_rw_info.op_flags());
               RegGroup group = work_reg->group();
-              RegMask in_out_regs = _pass._available_regs[group] & instruction_allowed_regs;
+              RegMask in_out_regs = _pass._available_regs[group] & instruction_allowed_regs & ~gp_forbidden_regs;
 
               // Index registers have never fixed id on X86/x64.
               const uint32_t use_id = Reg::kIdBad;
